@@ -220,7 +220,7 @@ theorem rescale_div_int (F : Fmt) (hF : WorkFmt F) (k s : Rat) (hk : k ≠ 0) (h
 theorem specRescale_of_le (F : Fmt) (qm k yq rq : Rat)
     (h : |yq - rq| ≤ 5 * F.u * |rq| + (qm + 4 + |k| + (if |k| = 0 then 0 else 1 / |k|)) * F.eta) :
     specRescale F qm k (.fin yq) (.fin rq) = true := by
-  simp only [specRescale, rabs_eq, decide_eq_true_eq]
+  simp only [specRescale, specRescale2, rabs_eq, decide_eq_true_eq]
   exact h
 
 /-- integer codes: the allowance of `specRescale` covers the bound -/
